@@ -49,7 +49,9 @@ EXTRA = {
            "in the blind fit (R10); the fitted pixels are blanked "
            "wherever another island's label is present (R11)."
            " The point-source shortcut for small islands is interpreted "
-           "for 7 pixels and 3-pixel-wide islands (R12).",
+           "for 7 pixels and 3-pixel-wide islands (R12)."
+           " The background is subtracted exactly once before "
+           "segmentation (R13, shared with C02-R9).",
     "C02": " Also: the island loop visits all labels with the exact label "
            "slices, blanks a copy, and passes (row, column) offsets (R8)."
            " The image handed to find_islands has its background "
@@ -57,14 +59,18 @@ EXTRA = {
            " A pre-selected island loop enumerates exactly the seeded "
            "labels (label-set domain, R8); the guards of the "
            "background subtraction are interpreted over sample "
-           "backgrounds (R9).",
+           "backgrounds (R9)."
+           " Out-of-group pixels are marked with NaN, never with a "
+           "number a pixel can take (R8).",
     "C03": " Also: sign of every value stored into err_* (R11), the island "
            "number stored is the island's own (R2)."
            " The sexagesimal formatters carry after the integer "
            "rounding and wrap afterwards (R12, R13; shared with C17)."
            " Island rows by role: extent, pixel count, component count, "
            "widths, selection parity (R9); flag bits reach the stored "
-           "flags parameter (R14).",
+           "flags parameter (R14)."
+           " The island cut-out excludes other islands' pixels (R15, "
+           "shared with C01-R11).",
     "C04": " Also: each err_* field depends on the stderr of its own "
            "parameter (R8, dependency analysis), covariance-model contract "
            "sites (R9), no narrow dtype in fitting.py (R7)."
@@ -76,10 +82,13 @@ EXTRA = {
            " Cut-outs given as slice objects (R3, R4); no write through "
            "a view of the shared arrays in the refit (R9)."
            " Catalogues without psf columns keep their sources in "
-           "resize (R10, interpreted for nan).",
+           "resize (R10, interpreted for nan)."
+           " The loops over islands, sources and batches run to "
+           "completion (R11).",
     "C06": " Also: double precision until the final cast (R6), row / column "
            "axis discipline of the worker (R7), plane addressing of 3-d / "
-           "4-d inputs (R8).",
+           "4-d inputs (R8)."
+           " No NaN is replaced by a number inside the estimator (R9).",
     "C07": " Also: row / column axis discipline of the stripe halo and box "
            "(R7)."
            " The pool / barrier rule is decided when only one side is "
@@ -90,47 +99,63 @@ EXTRA = {
            "operation is the identity (R3), the cache is never mutated in "
            "place (R9), no narrow integer / float dtype (R10), add_pixels "
            "adds (R11)."
-           " Derived caches are reset with the demoted cache (R12).",
+           " Derived caches are reset with the demoted cache (R12)."
+           " Membership answers are look-ups in the flattened set (R13, "
+           "shared with C09-R6).",
     "C09": " Also: membership look-up contract of numpy.isin (R6), the "
            "non-finite mask is exact and taken from values that are still "
            "non-finite (R3), angular-length vs coordinate kinds."
-           " Cache aliasing (R7, shared with C08-R9).",
+           " Cache aliasing (R7, shared with C08-R9)."
+           " Nothing applied before the degin conversion uses an "
+           "angular constant (R8).",
     "C10": " Also: enumeration order of the pixel list vs reshape (R7), "
            "undefined coordinates never inside (R8), column-name kinds."
            " Paths that bypass the masked write exist only behind an "
            "emptiness test of the final mask (R3)."
            " The driver mask_file writes no pixel values itself; every "
-           "plane goes through the 2-d routine (R3, R4).",
+           "plane goes through the 2-d routine (R3, R4)."
+           " The image is not narrowed to a smaller float type (R9).",
     "C11": " Also: the tested pixels are exactly the own pixels (R2), the "
            "flattening sees every stored level (R6)."
            " The region is never re-bound or dropped on a partial test; "
            "membership is decided in the island loop (R3)."
            " Derived caches of the membership test are reset with the "
-           "demoted cache (R7).",
+           "demoted cache (R7)."
+           " Membership answers are look-ups in the flattened set (R8).",
     "C12": " Also: cache aliasing (R6), vertex (lon, lat) order and RA in "
            "hours at SkyCoord (R4)."
            " No sign carried by an integer sexagesimal field in the DS9 "
-           "writer (R4).",
+           "writer (R4)."
+           " The template's table is replaced on every path to the "
+           "output (R3).",
     "C13": " Also: parity analysis under image -> -image of the detection "
            "statistic, summit key, summit acceptance (R4) and of the "
            "catalogue fields (R5)."
            " Guards of load_globals on pixel data take the same value "
-           "for negated data (R6).",
+           "for negated data (R6)."
+           " The err_int_flux computation is interpreted for a source "
+           "and its mirror image (R7).",
     "C14": " Also: off-image skip guards evaluated over orderings (R4)."
            " The guards are also interpreted for an undefined (NaN) "
            "centre (R4)."
-           " Single-precision table cells are promoted to double (R7).",
+           " Single-precision table cells are promoted to double (R7)."
+           " Sources are placed with the inverse of the catalogue's "
+           "transformation family (R9); outputs of make_residual (R8).",
     "C15": " Also: node arrays not edited after their definition, "
            "decimation starts at pixel 0 (R3)."
            " Row and column extents of compress never influence each "
            "other (R5)."
            " The output file is written after the last header / data "
-           "modification (R6).",
+           "modification (R6)."
+           " Raw values are scaled by BSCALE exactly once wherever "
+           "files are opened unscaled (R7).",
     "C16": " Also: dependency of each output of the ellipse / vector "
            "transforms on its own inputs (R5), |cos(defect)| correction in "
            "both siblings (R7), no narrow dtype (R6)."
            " Position angles from two-argument arctangents (R8)."
-           " No memoised or shared state in the conversions (R9).",
+           " No memoised or shared state in the conversions (R9)."
+           " Forward and inverse WCS calls belong to one astropy family "
+           "(R10).",
     "C17": " Also: conditioning near zero separation (R6), purity of the "
            "vectorised primitives (R7), no narrow dtype (R8)."
            " The rounded seconds are an integer number of output "
@@ -138,7 +163,8 @@ EXTRA = {
     "C18": " Also: exhaustive type dispatch of the sqlite and FITS writers "
            "(R7), value provenance in the reader (R4)."
            " No reordering between catalogue and table rows (R8)."
-           " The per-type outputs are independent of each other (R9).",
+           " The per-type outputs are independent of each other (R9)."
+           " Column types are decided by all rows (R10).",
     "C19": " Also: no narrow dtype in the grouping pipeline (R8)."
            " Ratio 1 is the identity also for unknown (nan) psf (R7); "
            "the greedy variant joins the matched group exactly once "
@@ -146,7 +172,8 @@ EXTRA = {
     "C20": " Also: plane addressing of cubes with sibling agreement (R5), "
            "BSCALE applied exactly once (R6)."
            " No memoised or module-level state on the load path (R7)."
-           " Compressed inputs recognised by keyword presence (R8).",
+           " Compressed inputs recognised by keyword presence (R8)."
+           " The whole loaded block is scaled by BSCALE (R6).",
 }
 
 
